@@ -1,0 +1,14 @@
+//go:build verif
+
+package text
+
+// Exported wrappers around the unexported key codecs of the text index for the
+// verification harnesses.
+
+func VerifTermKey(term string) []byte { return termKey(term) }
+
+func VerifTermFromKey(key []byte) (string, bool) { return (&setCacheItem{}).IdFromKey(key) }
+
+func VerifDocumentKey(id uint64) []byte { return documentKey(id) }
+
+func VerifDocumentIdFromKey(key []byte) (uint64, bool) { return docCacheItem{}.IdFromKey(key) }
